@@ -509,6 +509,24 @@ func dangle(rt_ *rapid.T, d *m.Design) string {
 					h.Responses = append([]*m.Response{tagged}, h.Responses...)
 				}})
 			}
+			// an error whose type is not an object, with a response body naming an
+			// attribute: one the method result happens to have (the error type
+			// has none), or one nobody has
+			for _, et := range []m.Kind{m.String, m.Array} {
+				et := et
+				attr, whose := "no_such_attribute", "a missing attribute"
+				if fs := d.ObjectFields(meth.Result); meth.Result != nil && len(fs) > 0 {
+					attr, whose = fs[0].Name, "an attribute of the method result"
+				}
+				sites = append(sites, site{"error response Body naming " + whose + " for an error of type " + string(et) + " in " + meth.Name, func() {
+					ta := m.Prim(m.String)
+					if et == m.Array {
+						ta = &m.Attr{Type: &m.Type{Kind: m.Array, Elem: m.Prim(m.String)}}
+					}
+					meth.Errors = append(append([]*m.ErrorDef{}, meth.Errors...), &m.ErrorDef{Name: "dangling_error", Type: ta})
+					h.ErrorResp = append(append([]*m.ErrorResponse{}, h.ErrorResp...), &m.ErrorResponse{Name: "dangling_error", Status: 418, Level: "method", BodyAttr: attr})
+				}})
+			}
 			sites = append(sites, site{"error response naming an undeclared error in " + meth.Name, func() {
 				h.ErrorResp = append(h.ErrorResp, &m.ErrorResponse{Name: "no_such_error", Status: 418, Level: "method"})
 			}})
